@@ -16,6 +16,12 @@ import HL.Model.Classes
   `End = e.position`, and the new lexer state `e` — in lexer.go every token is built from a
   `startPos := l.position()` taken at some state and `End: l.position()` of the final state.
 
+  Line ends: `atEol` = `(*Lexer).atLineEnd` — a line feed, or a carriage return directly followed
+  by a line feed; the loops that run to the end of the line are `advLineF` (they stop there), and
+  `scanNewline` takes `"\r\n"` as one token.  A carriage return not followed by a line feed is an
+  ordinary byte.  (Before the `fix:` commit for CRLF line ends only LF ended a line: that lexer is
+  kept, as far as it differs, in HL/Model/LexerPinned.lean.)
+
   Transcribed, not repaired: `scanAccount` ends its token (`End`) after trailing single blanks
   although the value stops at the last non-blank; `scanText` trims the value but not the
   extent; `scanDirectiveOrAccount` / `scanCommodityOrText` rewind `pos` and `column`.
